@@ -12,6 +12,8 @@ import Driver.SeqLockT
 import Driver.ConnT
 import Driver.UisT
 import Driver.RuisT
+import Driver.ContainerT
+import Driver.EventT
 open Driver
 
 partial def loop (c : Comp) (hin hout : IO.FS.Stream) (s : c.σ) (buf : String) (n : Nat) : IO Unit := do
@@ -45,7 +47,9 @@ def components : List (String × Comp) := [
   ("seqlock", SeqLockT.comp),
   ("conn", ConnT.comp),
   ("uis", UisT.comp),
-  ("ruis", RuisT.comp)
+  ("ruis", RuisT.comp),
+  ("container", ContainerT.comp),
+  ("event", EventT.comp)
 ]
 
 def main (args : List String) : IO UInt32 := do
